@@ -21,8 +21,9 @@ import numpy as np
 from harness import coqterm as ct
 from harness.acc_common import cell_from_json  # noqa: E402,F401
 from harness.acc_common import mend  # noqa: E402
+from harness.acc_common import mstart as mstart_  # noqa: E402
 from harness.acc_common import (ACC_LAYOUTS, AccGen, CellPrinter, cbool, clist, copt, cres, cz, czlist,
-                                mid, month_aligned, parse_nat_list, same_meta, tri_from_json, tri_to_json)
+                                meta_key, mid, month_aligned, parse_nat_list, same_meta, tri_from_json, tri_to_json)
 from harness.common import COQ, REPO, parse_coq_eval
 
 D = datetime.date
@@ -62,6 +63,9 @@ def observe(t):
     operation returned, so that anything the operation carried over from its parent is seen."""
     live = isinstance(t, Derived)
     get = (lambda: t.child) if live else (lambda: fresh(t))
+    if not live and len(t.cells) > 1200:   # large: one fresh copy for all accessors (sorting dominates)
+        one = fresh(t)
+        get = lambda: one  # noqa: E731
     o = {}
     o["cells"] = list(t.cells)
     o["live"] = t.child if live else None
@@ -153,6 +157,8 @@ def derive(parent, d):
     from bermuda import Triangle
 
     op = d["op"]
+    if op == "big":
+        return big_triangle(d["params"])
     if op == "retime":
         return retime(parent, d)
     if op == "reclass":  # H: equal-but-differently-typed receiver: Cell <-> CumulativeCell
@@ -204,6 +210,77 @@ def derive(parent, d):
     raise ValueError(op)
 
 
+def big_triangle(p):
+    """Large triangles from a few parameters (recorded in replays instead of the cells).
+    kind grid:   slices = [{"cap": n cells, "fields": [[name, first n cells carrying it] ..] | "pattern": k}], n_periods x
+                 n_lags monthly cells per slice in (period, lag) order, truncated to cap
+    kind metas:  n distinct metadata, one cell each
+    kind samples: arrays of n samples (views: reversed, strided) in a few cells"""
+    from bermuda import CumulativeCell, Metadata, Triangle
+
+    r = random.Random(p.get("seed", 0))
+    cells = []
+    if p["kind"] == "grid":
+        start = (p.get("year", 1990) - 1970) * 12
+        res = p.get("res", 1)
+        for j, sl in enumerate(p["slices"]):
+            m = Metadata(country=f"C{j:03d}", per_occurrence_limit=2**53 + 1 + j if p.get("big_ints") else None,
+                         details={"id": 2**60 + j} if p.get("big_ints") else {})
+            i = 0
+            for a in range(p["n_periods"]):
+                for k in range(p["n_lags"]):
+                    if i >= sl["cap"]:
+                        break
+                    if "fields" in sl:
+                        vals = {f: (2**53 + 1 + i if p.get("big_ints") else i) for f, n in sl["fields"] if i < n}
+                    else:
+                        vals = {f"f{q}": i for q in range(sl["pattern"]) if (i * 7 + q * 3) % 5 < 3 or q == i % sl["pattern"]}
+                    pe = mend(start + (a + 1) * res - 1)
+                    cells.append(CumulativeCell(period_start=mstart_(start + a * res), period_end=pe,
+                                                evaluation_date=mend(start + (a + 1) * res - 1 + k * res), values=vals, metadata=m))
+                    i += 1
+    elif p["kind"] == "metas":
+        for j in range(p["n"]):
+            m = Metadata(country=f"K{j % 97}", details={"id": j, "grp": j % 13}, loss_details={"l": -1 - (j % 3)})
+            cells.append(CumulativeCell(period_start=D(2020, 1, 1), period_end=D(2020, 3, 31),
+                                        evaluation_date=mend(602 + j % 7), values={"paid_loss": j, f"g{j % 5}": 1}, metadata=m))
+    elif p["kind"] == "samples":
+        n = p["n"]
+        base = np.arange(2 * n, dtype=np.int64)
+        views = [base[:n], base[::-1][:n], base[::2], np.asfortranarray(np.ones((n, 2)))[:, 0], np.linspace(0, 1, n)]
+        for k, v in enumerate(views):
+            cells.append(CumulativeCell(period_start=D(2020, 1, 1), period_end=D(2020, 3, 31), evaluation_date=mend(602 + k),
+                                        values={"paid_loss": v, "scalar": k, "size1": np.array([k])}))
+        if p.get("mismatch"):
+            cells.append(CumulativeCell(period_start=D(2020, 4, 1), period_end=D(2020, 6, 30), evaluation_date=mend(609),
+                                        values={"paid_loss": np.arange(p["mismatch"])}))
+    r.shuffle(cells)
+    return Triangle(cells)
+
+
+def big_params(quick):
+    """sizes chosen to cross: >= 256-multiples per slice, > 2048 / 3100 cells, > 64 evaluation dates, rows > 65 cells,
+    > 2100 distinct Metadata, 10^4-sample arrays, integers beyond 2**53"""
+    ps = [
+        {"kind": "grid", "n_periods": 12, "n_lags": 70, "slices": [
+            {"cap": 512, "fields": [["paid_loss", 512], ["reported_loss", 256], ["x", 255], ["y", 768]]},
+            {"cap": 257, "fields": [["paid_loss", 256], ["z", 257], ["x", 1]]},
+            {"cap": 768, "fields": [["paid_loss", 768], ["reported_loss", 512], ["w", 300]]}]},
+        {"kind": "grid", "n_periods": 40, "n_lags": 66, "res": 1, "slices": [{"cap": 2400, "pattern": 6}, {"cap": 300, "pattern": 4}]},
+        {"kind": "grid", "n_periods": 8, "n_lags": 40, "res": 3, "big_ints": True,
+         "slices": [{"cap": 300, "fields": [["paid_loss", 300], ["earned_premium", 256]]}]},
+        {"kind": "metas", "n": 2200},
+        {"kind": "samples", "n": 10000},
+        {"kind": "samples", "n": 4096, "mismatch": 5000},
+    ]
+    if not quick:
+        ps += [{"kind": "grid", "n_periods": 60, "n_lags": 90, "slices": [{"cap": 4200, "pattern": 7}, {"cap": 1024, "pattern": 3}]},
+               {"kind": "metas", "n": 4300}, {"kind": "samples", "n": 100000},
+               {"kind": "grid", "n_periods": 110, "n_lags": 12, "res": 12, "year": 1971,
+                "slices": [{"cap": 1100, "fields": [["paid_loss", 1024], ["q", 1100]]}]}]
+    return ps
+
+
 def make_derived(parent_cells, d):
     from bermuda import Triangle
 
@@ -213,6 +290,11 @@ def make_derived(parent_cells, d):
         warm(parent)
         child = derive(parent, d)
     return Derived(tri_to_json(parent_cells), d, child)
+
+
+def big_cases(ctx):
+    return [(f"big:{p['kind']}/{p.get('n', '')}{'x'.join(str(s['cap']) for s in p.get('slices', []))}",
+             make_derived([], {"op": "big", "params": p})) for p in big_params(ctx.quick)]
 
 
 def canon_out(key, kv):
@@ -488,13 +570,8 @@ def oracles(o):
                for d in (c.period_start, c.period_end, c.evaluation_date, getattr(c, "prev_evaluation_date", c.period_end))):
         bad.append(("periods", "a cell stores a period / evaluation date that is not a plain datetime.date"))
     # sorted distinct images
-    per, evs = [], []
-    for c in cells:
-        p = (c.period_start, c.period_end)
-        if p not in per:
-            per.append(p)
-        if c.evaluation_date not in evs:
-            evs.append(c.evaluation_date)
+    per = list(dict.fromkeys((c.period_start, c.period_end) for c in cells))
+    evs = list(dict.fromkeys(c.evaluation_date for c in cells))
     per.sort(key=lambda p: (p[0].toordinal(), p[1].toordinal()))
     evs.sort(key=lambda d: d.toordinal())
     v = val("periods")
@@ -528,29 +605,26 @@ def oracles(o):
     lmf = sorted({month_lag(c.period_end, c.evaluation_date) for c in cells})
     v = val("lags_month")
     chk("dev_lags(month)", v is not None and list(v) == lmf, f"got {v} want {lmf}")
-    names = []
-    for c in cells:
-        for f in c.values:
-            if f not in names:
-                names.append(f)
+    names = list(dict.fromkeys(f for c in cells for f in c.values))
     names.sort(key=lambda s: s.encode("utf8"))
     v = val("fields")
     chk("fields", v == names, f"got {v} want {names}")
     # metadata: set equality + sorted under the implementation's own `<` + no duplicates
     metas = val("metadata") or []
-    seen = []
+    by_key = {}                       # slices, grouped without Metadata.__eq__ / __hash__
     for c in cells:
-        if not any(same_meta(c.metadata, m) for m in seen):
-            seen.append(c.metadata)
-    chk("metadata", len(metas) == len(seen) and all(any(same_meta(m, s) for s in seen) for m in metas)
-        and all(any(same_meta(m, s) for m in metas) for s in seen), "not the distinct metadata of the cells")
+        by_key.setdefault(meta_key(c.metadata), []).append(c)
+    seen = [cs[0].metadata for cs in by_key.values()]
+    chk("metadata", len(metas) == len(seen) and {meta_key(m) for m in metas} == set(by_key),
+        "not the distinct metadata of the cells")
     chk("metadata", all(a < b and not (b < a) for a, b in zip(metas[:-1], metas[1:])), "not strictly sorted by <")
     # counts
     v = val("field_cell_counts")
     want = {f: sum(1 for c in cells if f in c.values) for f in names}
     chk("field_cell_counts", v == want and list(v or {}) == names, f"got {v} want {want}")
     v = val("field_slice_counts")
-    want = {f: sum(1 for m in seen if any(f in c.values for c in cells if same_meta(c.metadata, m))) for f in names}
+    slice_fields = [set(f for c in cs for f in c.values) for cs in by_key.values()]
+    want = {f: sum(1 for fs in slice_fields if f in fs) for f in names}
     chk("field_slice_counts", v == want and list(v or {}) == names, f"got {v} want {want}")
     # num_samples
     sizes = {x.size for c in cells for x in c.values.values() if isinstance(x, np.ndarray) and x.size > 1}
@@ -614,8 +688,8 @@ def oracles(o):
     chk("is_disjoint", dj == disjoint_true, f"got {dj}, all-pairs overlap test says {disjoint_true}; periods {per}")
     swd = val("is_slicewise_disjoint")
     want = True
-    for m in seen:
-        pp = list({(c.period_start, c.period_end) for c in cells if same_meta(c.metadata, m)})
+    for cs in by_key.values():
+        pp = list({(c.period_start, c.period_end) for c in cs})
         if any(overlap(p, q) for i, p in enumerate(pp) for q in pp[i + 1:]):
             want = False
     chk("is_slicewise_disjoint", swd == want, f"got {swd} want {want}")
@@ -892,6 +966,7 @@ def run_cases(ctx, cases, tag="cases"):
     oracle_fail, mism = [], []
     chunk, pr = [], None
     texts = []
+    early = []
 
     def flush():
         nonlocal chunk, pr
@@ -921,6 +996,12 @@ def run_cases(ctx, cases, tag="cases"):
             fails = fails + unit_spelling_failures(t)
         for acc, msg in fails[:3]:
             oracle_fail.append((i, label, t, f"{acc}: {msg}"))
+        if i < 8:
+            early.append((label, t, {k: canon_out(k, o[k]) for k in OBS_KEYS}))
+        if isinstance(t, Derived) and t.derivation.get("op") == "big":
+            ctx.hist("big:python-oracles-only")
+            ctx.nontriv(repr(t.derivation))
+            continue  # no Coq literals for the large stream (the theorems are size-independent)
         if pr is None:
             pr = CellPrinter(f"k{len(files)}_")
         try:
@@ -946,6 +1027,16 @@ def run_cases(ctx, cases, tag="cases"):
         if len(chunk) >= per_file:
             flush()
     flush()
+    # process-wide state (caches, pools): the earliest small cases are read again AFTER all the large work
+    for label, t, first in early:
+        if isinstance(t, Derived):
+            continue
+        again = observe(t)
+        for key in OBS_KEYS:
+            if canon_out(key, again[key]) != first[key]:
+                oracle_fail.append((0, label, t, f"{key}: re-check after the large stream gives {again[key][1]!r}, the first read gave {first[key]!r}"))
+        for acc, msg in oracles(again)[:2]:
+            oracle_fail.append((0, label, t, f"{acc}: (re-check after the large stream) {msg}"))
     res = ctx.coqc_many([f for f, _ in files], jobs=16, timeout=900)
     for f, idxs in files:
         rc, out = res[f]
@@ -1061,6 +1152,11 @@ def run(ctx):
     ctx.obligation("C13_Tie.v compiles", rc == 0, out)
     cases = build_cases(ctx, 1400 if ctx.quick else 9000)
     cases += build_derived(ctx, 500 if ctx.quick else 3000)
+    t_big = __import__("time").time()
+    cases += big_cases(ctx)
+    ctx.notes.append("large stream: %d big triangles (sizes in big_params) judged by the Python-side oracles only, no Coq "
+                     "literals for them (the theorems are size-independent; the correspondence samples); the earliest small "
+                     "cases are re-read after the large work" % len(big_params(ctx.quick)))
     ofail, mism = run_cases(ctx, cases)
     ctx.log(f"{len(cases)} cases: {len(ofail)} oracle failures, {len(mism)} model/spec mismatches")
     ctx.obligation("correspondence model = implementation and specs hold on implementation outputs", not mism,
@@ -1077,9 +1173,10 @@ def report(ctx, ofail, mism):
             continue
         seen.add(key)
         if isinstance(t, Derived):
-            ctx.violation("impl-violation", f"{what} [{label}]",
-                          {"accessor": key, "label": label, "cells": tri_to_json(t), "parent_cells": t.parent_json,
-                           "derivation": t.derivation}, found_input=True)
+            big = t.derivation.get("op") == "big"
+            ctx.violation("impl-violation", f"{what}"[:1500] + f" [{label}]",
+                          {"accessor": key, "label": label, "cells": "generated from derivation.params" if big else tri_to_json(t),
+                           "parent_cells": t.parent_json, "derivation": t.derivation}, found_input=True)
         else:
             small = shrink(t, key)
             ctx.violation("impl-violation", f"{what} [{label}]",
